@@ -257,3 +257,19 @@ def ob_import_pruning(r, tier, seed):
 _c02_obl2 = obligations
 def obligations():
     return _c02_obl2() + [Ob('O2.3-import-pruning', 'prune_unused_imports keeps exactly the imports whose binding a remaining call uses', ob_import_pruning, ('quick', 'thorough'), 3, {})]
+
+# ----------------------------------------------------------------------------- O2.5 every variable a lifted closure body reads is a field of its environment (else the apply function reads an undeclared Go variable)
+def ob_capture_complete(r, tier, seed, **kw):
+    """same exploration as C08 O8.1 (lift::collect_captured against the free variables of the body); under C02 only a free variable that is
+    NOT captured counts: the apply function then mentions a variable that is declared nowhere in it (`undefined: x` in Go)"""
+    from props import c08
+    c08.ob_capture_set(r, tier, seed, **kw)
+    keep = []
+    for f in r.findings:
+        w = f.witness or {}
+        if f.key == 'panic' or set(w.get('free', [])) - set(w.get('captured', [])): keep.append(f)
+    r.findings = keep
+_c02_obl3 = obligations
+def obligations():
+    return _c02_obl3() + [Ob('O2.5-captures-complete-d2', 'every free variable of a closure body is captured (let / binary / call / tuple / while on top)', ob_capture_complete, ('quick', 'thorough'), 10, dict(depth=2, forms=['ELet', 'EBinary', 'ECall', 'ETuple', 'EWhile'])),
+                          Ob('O2.5-captures-complete-more', 'same: if / match (scrutinee, arms, default) / unary / projection / array / go / field read on top', ob_capture_complete, ('quick', 'thorough'), 5, dict(depth=2, forms=['EIf', 'EMatch', 'EUnary', 'EProj', 'EArray', 'EGo', 'EConstrGet', 'EConstr'], inner=('EVar', 'ELet'), names=('x', 'z')))]
